@@ -356,6 +356,55 @@ def do_op(H, host, pre, level, s, judged=True):
     return fails, post, sn
 
 
+# ---- phase 3: strings of an unusual TYPE ---------------------------------------------------------------------
+# "Assigning a string": a str subclass IS a string, whatever its __str__ / __repr__ / __format__ print. The value
+# that must be read back is the subclass instance's character content (what str methods see), not what str(x)
+# renders. Exhaustive over TYPED kinds x TYPED_STRINGS x levels x two priors; predictions come from the same model,
+# fed the plain content.
+
+TYPED_STRINGS = ["open", "a\nb", "x\vy", ""]
+TYPED_KINDS = ["plain-subclass", "subclass-with-__str__", "str-enum-member"]
+TYPED_PRIORS = ["empty", "three"]
+
+
+def typed(kind, s):
+    if kind == "plain-subclass":
+        class Sub(str):
+            pass
+        return Sub(s)
+    if kind == "subclass-with-__str__":
+        class Tagged(str):
+            def __str__(self):
+                return "Tagged<%s>" % str.__str__(self)
+
+            def __repr__(self):
+                return "Tagged(%s)" % str.__repr__(self)
+
+            def __format__(self, spec):
+                return "formatted"
+        return Tagged(s)
+    if kind == "str-enum-member":
+        import enum
+        return enum.Enum("Status", {"OPEN": s}, type=str).OPEN
+    raise ValueError(kind)
+
+
+def _typed_worker(part, chunk):
+    H = hosts()
+    for kind, level, prior, s in chunk:
+        host = _host_for(level)
+        H.set_prior(host, prior)
+        fails, post, sn = do_op(H, host, H.prior_obs[prior], level, typed(kind, s), True)
+        part.count("evaluations")
+        part.count("typed_cases")
+        part.count("nontrivial_count")
+        part.outcome("typed:" + kind, "ok" if not fails else fails[0][0])
+        for rule, msg in fails:
+            sig = "C04|%s|level=%s|typed=%s" % (rule, level, kind)
+            part.violation(sig, "prior=%s, %s of content %r: %s" % (prior, kind, s, msg),
+                           {"typed": kind, "prior": prior, "ops": [[level, s]], "signature": sig})
+
+
 # ---- batched save / re-open ------------------------------------------------------------------------------
 
 def batch_roundtrip(entries):
@@ -656,6 +705,14 @@ def run(ctx):
     for sig, what, rp in reduce_pairs(precs):
         ctx.violation(sig, what, rp)
 
+    # phase 3: strings of unusual type
+    titems = [(k, lv, pr, st) for k in TYPED_KINDS for lv in LEVELS for pr in TYPED_PRIORS for st in TYPED_STRINGS]
+    fanout(ctx, _typed_worker, ctx.rotate(titems), chunk_size=max(1, len(titems) // 8), min_parallel=1)
+    exp3 = len(TYPED_KINDS) * len(LEVELS) * len(TYPED_PRIORS) * len(TYPED_STRINGS)
+    if ctx.counters.get("typed_cases", 0) != exp3:
+        raise HarnessError("typed cases %d != %d" % (ctx.counters.get("typed_cases", 0), exp3))
+    ctx.extra["typed_cases"] = exp3
+
     ctx.extra["strings_enumerated"] = len(exh)
     ctx.extra["strings_extra"] = len(EXTRA)
     ctx.extra["strings_lookalike_not_judged"] = len(LOOKALIKE)
@@ -664,8 +721,8 @@ def run(ctx):
     ctx.extra["pair_string_pairs"] = exp2 // (len(PRIORS) * 16)
     ctx.extra["levels"] = LEVELS
     ctx.extra["prior_states"] = PRIOR_NAMES
-    if ctx.counters["evaluations"] != exp1 + exp2:
-        raise HarnessError("evaluations %d != %d" % (ctx.counters["evaluations"], exp1 + exp2))
+    if ctx.counters["evaluations"] != exp1 + exp2 + exp3:
+        raise HarnessError("evaluations %d != %d" % (ctx.counters["evaluations"], exp1 + exp2 + exp3))
 
 
 # ---- replay ---------------------------------------------------------------------------------------------------------
@@ -685,6 +742,8 @@ def replay(data):
     sn = None
     for i, (level, s) in enumerate(ops):
         judged = s not in LOOKALIKE
+        if data.get("typed"):
+            s = typed(data["typed"], s)
         fails, post, sn = do_op(H, host, pre, level, s, judged)
         if post is None:
             break
